@@ -35,7 +35,7 @@ import json
 from pathlib import Path
 
 from ..absint import Interp, Raised, Record, Unsupported, _Return
-from ..astx import atoms, attr_writes, call_name, dotted, enclosing_stmt, expand, facts_at, has_fact, kwarg, last, reaching_def
+from ..astx import assigned_names, atoms, attr_writes, call_name, dotted, enclosing_stmt, expand, facts_at, has_fact, kwarg, last, reaching_def
 from ..cfg import CFG
 from ..index import AnchorError, FuncNode, enclosing_class, enclosing_function, parent, qualname_of
 from ..selftest import Twin
@@ -130,6 +130,83 @@ def _tokens(e: ast.AST, at: ast.AST, depth: int = 3) -> list[tuple[str, object]]
             return _tokens(d, d, depth - 1)
         return [("slot", e)]
     raise AnchorError(f"C17.R1: cannot read `{ast.unparse(e)[:60]}` as a frame template")
+
+
+def _binds(n, name: str) -> bool:
+    """Does this CFG node (a simple statement, or the header of a compound one) bind ``name``?"""
+    a = n.ast
+    if a is None:
+        return False
+    if n.kind == "stmt" and not isinstance(a, (ast.If, ast.While, ast.For, ast.AsyncFor, ast.With, ast.AsyncWith, ast.Try, ast.Match)):
+        return name in assigned_names(a)
+    hdr: list[ast.AST] = []
+    if isinstance(a, (ast.If, ast.While)):
+        hdr = [a.test]
+    elif isinstance(a, (ast.For, ast.AsyncFor)):
+        hdr = [a.target, a.iter]
+    elif isinstance(a, (ast.With, ast.AsyncWith)):
+        hdr = [x for it in a.items for x in (it.context_expr, it.optional_vars) if x is not None]
+    elif isinstance(a, ast.ExceptHandler):
+        return a.name == name
+    elif isinstance(a, ast.Match):
+        hdr = [a.subject]
+    elif isinstance(a, ast.match_case):
+        return any(getattr(x, "name", None) == name or getattr(x, "rest", None) == name for x in ast.walk(a.pattern)) or (a.guard is not None and name in assigned_names(a.guard))
+    else:
+        return name in assigned_names(a)
+    return any(name in assigned_names(h) for h in hdr)
+
+
+def _path_defs(cfg: CFG, fn: ast.AST, name: str, use: ast.AST) -> list[tuple[ast.AST, set[tuple[str, bool]]]] | None:
+    """Path-wise reaching definitions of the local ``name`` at the statement ``use``: the plain assignments
+    `name = <expr>` from which the use is reached on some CFG path that passes no other binding of the name, each
+    with the atomic facts of the branch edges that all such paths traverse between the definition and the use.
+    None when this cannot be said: some path reaches the use without any binding (parameter, closure variable),
+    a reaching binding is not a plain single-target assignment (loop target, `with … as`, augmented / unpacking
+    assignment, walrus), or the name is declared nonlocal/global."""
+    if any(isinstance(x, (ast.Nonlocal, ast.Global)) and name in x.names for x in ast.walk(fn)):
+        return None
+    starts = cfg.nodes_of(use)
+    if not starts:
+        return None
+    found: list = []
+    seen: set = set()
+    stack = [p for st in starts for p in cfg.pred[st]]
+    while stack:
+        label, n = stack.pop()
+        if n is cfg.entry:
+            return None
+        # a statement left through its exception edge has not (necessarily) completed its binding: look through it
+        if _binds(n, name) and label not in ("exc", "cancel"):
+            if n not in found:
+                found.append(n)
+            continue
+        if n in seen:
+            continue
+        seen.add(n)
+        stack.extend(cfg.pred[n])
+    binders = [n for n in cfg.nodes if _binds(n, name)]
+    out = []
+    for n in found:
+        a = n.ast
+        plain = n.kind == "stmt" and ((isinstance(a, ast.Assign) and len(a.targets) == 1 and isinstance(a.targets[0], ast.Name) and a.targets[0].id == name)
+                                      or (isinstance(a, ast.AnnAssign) and isinstance(a.target, ast.Name) and a.target.id == name and a.value is not None))
+        if not plain:
+            return None
+        # branch edges that every binding-free path from this definition to the use traverses (`x = A` / `if c: x = B` / use:
+        # the default reaches the use only over the false edge of `c`)
+        facts: set[tuple[str, bool]] = set()
+        through = cfg.reach([n], blocked=binders, include_starts=False)
+        for t in through:
+            if t.kind != "test":
+                continue
+            for label in ("T", "F"):
+                r = cfg.reach([n], blocked=binders, blocked_edges=[(t, label)], include_starts=False)
+                if not any(u in r for u in starts):
+                    for variant in (t.ast.test, expand(t.ast.test, t.ast)):
+                        facts.update(atoms(variant, label == "T"))
+        out.append((a, facts))
+    return sorted(out, key=lambda d: (d[0].lineno, d[0].col_offset)) or None
 
 
 def _lines(tokens: list[tuple[str, object]]) -> tuple[list[list[tuple[str, object]]], bool]:
@@ -339,7 +416,7 @@ def _bind_server(repo) -> _Server:
         raise AnchorError("C17.R1: `_stream_events` reads no `sse` query parameter")
     s.flag = flag
     # yields of strings, in generator functions nested in _stream_events
-    s.yields = []  # (fn, yield node, tokens, mode) mode in sse|plain|both
+    s.yields = []  # (fn, yield node, tokens, mode, node where the template is evaluated) mode in sse|plain|both
     for fn in ast.walk(se):
         if not isinstance(fn, FuncNode) or fn is se:
             continue
@@ -347,23 +424,35 @@ def _bind_server(repo) -> _Server:
         if not ys:
             continue
         cfg = CFG(fn)
+        flag_rebound = flag in assigned_names(fn)
+
+        def polarity(st: ast.AST) -> set[bool]:
+            return {pol for n in cfg.nodes_of(st) for pol in (True, False) if (flag, pol) in facts_at(cfg, n)}
+
         for y in ys:
-            try:
-                toks = _tokens(y.value, y)
-            except AnchorError:
-                if isinstance(y.value, (ast.Tuple,)):
-                    continue
-                raise
             st = enclosing_stmt(y)
-            mode = "both"
-            for n in cfg.nodes_of(st):
-                f = facts_at(cfg, n)
-                if (flag, True) in f:
-                    mode = "sse"
-                elif (flag, False) in f:
-                    mode = "plain"
-            s.yields.append((fn, y, toks, mode))
-    s.sse = [(fn, y, t) for fn, y, t, mode in s.yields if mode in ("sse", "both")]
+            # where the frame text is put together: the yield itself, or — when a local is yielded that the branches before it
+            # bind differently (`if sse: frame = … else: frame = …; yield frame`) — every definition that reaches the yield
+            sites: list[tuple[ast.AST, ast.AST, set]] = [(y.value, y, set())]
+            if isinstance(y.value, ast.Name) and reaching_def(y.value.id, y) is None:
+                defs = _path_defs(cfg, fn, y.value.id, st)
+                if defs is not None:
+                    sites = [(d.value, d, facts) for d, facts in defs]
+            for expr, at, between in sites:
+                try:
+                    toks = _tokens(expr, at)
+                except AnchorError:
+                    if isinstance(expr, (ast.Tuple,)):
+                        continue
+                    raise
+                pols = polarity(st) | (polarity(at) if at is not y else set()) | {pol for pol in (True, False) if (flag, pol) in between}
+                if pols and flag_rebound:
+                    raise AnchorError(f"C17.R1: the mode flag `{flag}` is rebound inside the frame generator; the mode of `{ast.unparse(expr)[:40]}` cannot be decided")
+                if len(pols) == 2:
+                    continue  # bound under one mode, yielded under the other: no run takes this path
+                mode = "both" if not pols else "sse" if True in pols else "plain"
+                s.yields.append((fn, y, toks, mode, at))
+    s.sse = [(fn, y, t, at) for fn, y, t, mode, at in s.yields if mode in ("sse", "both")]
     return s
 
 
@@ -590,21 +679,22 @@ def run(chk) -> None:
         return None
 
     event_frames = []
-    for fn, y, toks in s.sse:
+    for fn, y, toks, at in s.sse:
         lines, terminated = _lines(toks)
+        shown = y.value if at is y else at.value
         has_slot = any(k == "slot" for k, _v in toks)
         kinds = [classify(l) for l in lines]
         if "?slot-first" in kinds:
-            raise AnchorError(f"C17.R1: a server line starts with a computed value (`{ast.unparse(y.value)[:60]}`), field cannot be decided")
+            raise AnchorError(f"C17.R1: a server line starts with a computed value (`{ast.unparse(shown)[:60]}`), field cannot be decided")
         if not has_slot:
             bad = [k for k, l in zip(kinds, lines) if k is not None and l]
-            chk.ob("C17.R1", f"constant SSE frame `{ast.unparse(y.value)[:40]}` (keep-alive/comment) is not classified as a field by the client and ends with a line terminator", not bad and terminated,
+            chk.ob("C17.R1", f"constant SSE frame `{ast.unparse(shown)[:40]}` (keep-alive/comment) is not classified as a field by the client and ends with a line terminator", not bad and terminated,
                    m=sm, node=y, fn=fn, instance="comment-frame", reason=f"client would treat it as field {bad}" if bad else "frame is not newline-terminated: it merges with the next frame's first line")
             continue
-        event_frames.append((fn, y, toks, lines, kinds, terminated))
+        event_frames.append((fn, y, toks, lines, kinds, terminated, at))
     if len(event_frames) != 1:
         raise AnchorError(f"C17.R1: expected exactly one slotted SSE frame template in _stream_events, found {len(event_frames)}")
-    fn, y, toks, lines, kinds, terminated = event_frames[0]
+    fn, y, toks, lines, kinds, terminated, frame_at = event_frames[0]
     s.frame_fn, s.frame_yield = fn, y
     idx_id = [i for i, k in enumerate(kinds) if k == id_prefix and id_prefix is not None]
     idx_data = [i for i, k in enumerate(kinds) if k == data_prefix]
@@ -632,7 +722,7 @@ def run(chk) -> None:
         return  # frame shape already reported; the remaining rules need the slots
 
     # (c) line-boundary alphabet: characters the payload writer leaves raw vs boundaries of the client's line source
-    pay = expand(data_slot, y)
+    pay = expand(data_slot, frame_at)  # (the slots are read where the template is evaluated, not where the text is yielded)
     pcalls = [n for n in ast.walk(pay) if isinstance(n, ast.Call)]
     writer = None
     for n in pcalls:
@@ -684,7 +774,7 @@ def run(chk) -> None:
     # frame text from the template
     def frames_fn(evs, hb=True):
         out = []
-        comments = ["".join(str(v) for _k, v in t) for _f, _y, t in s.sse if not any(k == "slot" for k, _v in t)]
+        comments = ["".join(str(v) for _k, v in t) for _f, _y, t, _at in s.sse if not any(k == "slot" for k, _v in t)]
         for seq, payload in evs:
             if hb:
                 out.extend(comments)
@@ -999,8 +1089,8 @@ def run(chk) -> None:
     # slots of the frame: unpacked from the same queue item, in the same order
     ff = s.frame_fn
     unp = [a for a in ast.walk(ff) if isinstance(a, ast.Assign) and len(a.targets) == 1 and isinstance(a.targets[0], ast.Tuple) and len(a.targets[0].elts) == 2 and all(isinstance(e, ast.Name) for e in a.targets[0].elts)]
-    idn = expand(id_slot, s.frame_yield)
-    dn = expand(data_slot, s.frame_yield)
+    idn = expand(id_slot, frame_at)
+    dn = expand(data_slot, frame_at)
     ok_slots = False
     why = "no `(sequence, envelope) = item` unpacking found"
     for a in unp:
@@ -1423,6 +1513,14 @@ _CLASSIFIER = (
 _FIELD_CONSTS = ("_QueueItem = _QueuedEvent | _QueuedError | _QueuedDone\n", '_QueueItem = _QueuedEvent | _QueuedError | _QueuedDone\n\n_ID_FIELD = "id:"\n_DATA_FIELD = "data:"\n')
 
 
+_FRAME_YIELDS = '                    if sse:\n                        yield f"id: {sequence}\\ndata: {payload}\\n\\n"\n                    else:\n                        yield f"{payload}\\n"\n'
+
+
+def _frame_local(sse: str = 'f"id: {sequence}\\ndata: {payload}\\n\\n"', plain: str = 'f"{payload}\\n"', pre: str = "", post: str = "") -> str:
+    """The two per-mode yields of `format_stream` as one yield of a local bound in each mode's branch (benign B11_patch_2 shape)."""
+    return f"{pre}                    if sse:\n                        frame = {sse}\n                    else:\n                        frame = {plain}\n{post}                    yield frame\n"
+
+
 def _guard_classifier(id_cut: str = "len(_ID_FIELD)", id_extra: str = "", stale_item: bool = False) -> str:
     """The classifier as `continue` guards over module-level prefix constants, the id parsed into a temporary on every
     branch (the shape an extracted-and-folded helper leaves) and the queued item built into a local."""
@@ -1461,6 +1559,18 @@ TWINS = [
     Twin("guard-style: id branch cuts the other field's length", _C, *_multi(_C, [_FIELD_CONSTS, (_CLASSIFIER, _guard_classifier(id_cut="len(_DATA_FIELD)"))]), "C17.R1"),
     Twin("guard-style: named item built before the cursor advances", _C, *_multi(_C, [_FIELD_CONSTS, (_CLASSIFIER, _guard_classifier(stale_item=True))]), "C17.R2"),
     Twin("guard-style: cursor advanced in the id guard", _C, *_multi(_C, [_FIELD_CONSTS, (_CLASSIFIER, _guard_classifier(id_extra="last_sequence = int(current_id)"))]), "C17.R2"),
+    # R1 framing: the frame text bound to a local in each mode's branch, then a single yield
+    Twin("benign: frame built in a local per mode, one yield", _S, _FRAME_YIELDS, _frame_local(), None),
+    Twin("benign: frame local with a default that the SSE branch overrides", _S, _FRAME_YIELDS,
+         '                    frame = f"{payload}\\n"\n                    if sse:\n                        frame = f"id: {sequence}\\ndata: {payload}\\n\\n"\n                    yield frame\n', None),
+    Twin("frame local: the SSE branch builds a frame without the id line", _S, _FRAME_YIELDS, _frame_local(sse='f"data: {payload}\\n\\n"'), "C17.R1"),
+    Twin("frame local: SSE frame is only the default, the override carries no id line", _S, _FRAME_YIELDS,
+         '                    frame = f"id: {sequence}\\ndata: {payload}\\n\\n"\n                    if sse:\n                        frame = f"data: {payload}\\n\\n"\n                    yield frame\n', "C17.R1"),
+    Twin("frame local: data before id", _S, _FRAME_YIELDS, _frame_local(sse='f"data: {payload}\\nid: {sequence}\\n\\n"'), "C17.R1"),
+    Twin("frame local: SSE frame loses its terminator", _S, _FRAME_YIELDS, _frame_local(sse='f"id: {sequence}\\ndata: {payload}"'), "C17.R1"),
+    Twin("frame local: payload re-dumped without the escape in the SSE branch", _S, _FRAME_YIELDS, _frame_local(sse='f"id: {sequence}\\ndata: {envelope.model_dump_json()}\\n\\n"'), "C17.R1"),
+    Twin("frame local: id slot bound to the next sequence before the frame is built", _S, _FRAME_YIELDS, _frame_local(pre="                    sequence = sequence + 1\n"), "C17.R4"),
+    Twin("benign: frame local, the id name reused after the frame is built", _S, _FRAME_YIELDS, _frame_local(post="                    sequence = None\n"), None),
     # R1 framing
     Twin("slice one short", _C, "current_id = stripped[3:].strip()", "current_id = stripped[2:].strip()", "C17.R1"),
     Twin("server emits data before id", _S, 'yield f"id: {sequence}\\ndata: {payload}\\n\\n"', 'yield f"data: {payload}\\nid: {sequence}\\n\\n"', "C17.R1"),
